@@ -23,6 +23,13 @@ requested is then read through getCreationOperator / getAnnihilationOperator and
 verified in one of two ways: its records are identical, bit for bit, to those of the container filled in one go, which (a)-(d) above have
 just verified against model and specification; or (always for two histories per scenario, and whenever the records are not identical)
 the full analysis (a)-(d) is run on the history's own records, one-by-one operators included.
+LARGE-BLOCK stage (checks/c10_large.py, checks/c10_npref.py) -- TESTING with an independent numpy reference, because the extracted model and
+the oracle are too slow at 1024 Fock states: the scenarios above have blocks of dimension <= 36 and run with one OpenMP thread.  5-site
+Hubbard chains (10 modes, largest block 100) are run through h_c10 with OMP_NUM_THREADS = 8, 4 and 1 (thorough: 2, 16, repeats, ring,
+order_spins, complex build): all c^+_i, c_i through the container and two of them one by one; numpy checks block by block
+U_to * stored * U_from^+ == Jordan-Wigner block (bit operations on the dumped BLOCK state lists), c == (c^+)^+, one-by-one == container,
+no image outside the stored block pairs, {c_i, c^+_j} = delta_ij and {c_i, c_j} = 0 assembled over blocks for a sample of (i, j).  The
+reference is calibrated in every run against the oracle-backed analysis (a)-(d) on small chains (same records, both must accept).
 Model of the history semantics and its theorem: theories/ContainerHistory.v, ContainerHistoryProofs.v, Properties_C10.container_history_complete
 (after any history that ends with computeAll every requested operator is computed and equals the one-by-one operator; c = adjoint of c^+).
 """
@@ -30,6 +37,7 @@ import json
 import pv
 import edlib
 import hpartlib as hl
+import c10_large
 
 TOL = 1e-12
 CAR_TOL = 1e-7
@@ -437,7 +445,9 @@ def run(chk):
                    "matrix element lies outside the stored block pairs",
                    "Eigen 3.4: sparseView(1e-8)/prune(1e-8) drop |x| <= 1e-8 * 1e-12 (reference * dummy_precision); the model uses the same rule, the comparison tolerates "
                    "absent entries up to 1.01e-8 as the documented threshold",
-                   "theorems are about exact arithmetic; comparisons of binary64 results use 1e-12 (entries are bounded by 1)"]
+                   "theorems are about exact arithmetic; comparisons of binary64 results use 1e-12 (entries are bounded by 1)",
+                   "large-block stage: tested, not proved or tied to the model -- numpy reference (checks/c10_npref.py, interpreter python3-vt), tolerance 1e-10 per entry "
+                   "(rotations of 100x100 blocks), 1e-7 for the assembled anticommutators; a scheduling-dependent defect can escape a single run"]
     plan = [("real", False, 40 if quick else 150)]
     if quick:
         plan.append(("complex", True, 6))
@@ -471,6 +481,8 @@ def run(chk):
             if not any(f[0] == "driver" for f in fails):
                 nscen += 1
                 run_history_cases(chk, variant, text, nm, r, bool(fails), quick, nscen, hstat)
+    # LARGE-BLOCK stage: blocks of dimension 100, several OpenMP threads; TESTING with an independent numpy reference (checks/c10_large.py)
+    c10_large.stage(chk, quick, analyse_dump)
     chk.extra["container_histories"] = hstat
     chk.extra["observed"] = {"max_rotate_back_deviation": worst["back"], "max_CAR_deviation": worst["car"], "stored_parts_compared": worst["parts"],
                              "nonzero_entries_absent_below_threshold": worst["pruned_nonzero"]}
@@ -479,13 +491,20 @@ def run(chk):
                 "non-trivial = at least one block larger than 1x1; the signature names family, partition and accepted symmetries, block shapes, degenerate or not, build. "
                 "Container histories: per scenario 14 (quick) / 17 histories of prepareAll / computeAll calls (12 fixed shapes built from the lower and upper half of the index "
                 "range + random ones); a history is verified by bit-identity of all its operator records with the one-go container verified in the same scenario, or by the "
-                "full analysis (2 / 4 histories per scenario, rotating through the shapes, and every history whose records are not identical); distinct = scenario + history")
+                "full analysis (2 / 4 histories per scenario, rotating through the shapes, and every history whose records are not identical); distinct = scenario + history. "
+                "Large-block stage (testing with an independent numpy reference, see coverage.large_block_stage): one random 5-site Hubbard chain (largest block 100) "
+                "[thorough: + ring with order_spins, + complex hoppings in the complex build] x OMP_NUM_THREADS in {8, 4, 1} [thorough: {8 x3, 2, 4, 16, 1}]; all 10 c^+_i and "
+                "c_i through the container at 8 threads (3 sampled at 4 and 1 in quick), two one by one; a case = (scenario, thread count, operator); non-trivial = "
+                "largest block >= 64")
 
 
 def replay(chk, path):
     obj = json.load(open(path))
     rep = obj.get("replay", {})
     print(json.dumps(obj, indent=1)[:3000])
+    if isinstance(rep, dict) and rep.get("kind") == "large-block":
+        c10_large.replay(chk, rep, analyse_dump)
+        return chk.finish()
     if isinstance(rep, dict) and "scenario" in rep and ("history" in rep or "histories" in rep):
         for tk in ([rep["history"]] if "history" in rep else rep["histories"]):
             fails = history_fails(rep["scenario"], rep.get("variant", "real"), tk)
